@@ -1,7 +1,10 @@
 (* C13 -- translation to and from tket preserves the meaning of circuits.
    Theorems about the model coq/Tk/Tk.v of discopy/quantum/tk.py; proofs in Tk/TkLemmas.v.
-   Full statements that the (bug-compatible) model violates are kept as
-   `Definition ..._stmt : Prop` in TkLemmas.v and refuted here by closed witnesses. *)
+   The model carries one repair switch per defect with a small upstream fix (`fixes`:
+   F10, F18, F31, F32, F33, F34); `pinned` = all off, `repaired` = all on.  Full statements
+   that the pinned model violates are kept as `Definition ..._stmt (fx) : Prop` in
+   TkLemmas.v and refuted here, for `pinned`, by closed witnesses; the positive statements
+   hold for every setting of the switches (under the stated hypothesis on the switch). *)
 From Coq Require Import List ZArith Bool Lia Arith.
 Import ListNotations.
 Require Import DV.Common.Base DV.Tk.Tk DV.Tk.TkLemmas.
@@ -10,10 +13,10 @@ Require Import DV.Common.Base DV.Tk.Tk DV.Tk.TkLemmas.
    increasing list of live register indices below n_qubits, in wire order: wire k is
    carried by register rho(label of wire k) for an assignment rho that is injective on
    all labels allocated so far (renamings preserve the association of every wire). *)
-Theorem to_tk_registers_inv : forall dom ls1 ls2 s',
-  to_tk_layers dom st0 (ls1 ++ ls2) = Ok s' -> layers_allowed (ls1 ++ ls2) = true ->
+Theorem to_tk_registers_inv : forall fx dom ls1 ls2 s',
+  to_tk_layers fx dom st0 (ls1 ++ ls2) = Ok s' -> layers_allowed fx (ls1 ++ ls2) = true ->
   exists s1 q1 rho1,
-    to_tk_layers dom st0 ls1 = Ok s1 /\
+    to_tk_layers fx dom st0 ls1 = Ok s1 /\
     qtrace_layers dom (QS [] 0 []) ls1 = Some q1 /\
     registers_ok s1 q1 rho1.
 Proof. exact to_tk_registers_inv_lemma. Qed.
@@ -22,8 +25,8 @@ Print Assumptions to_tk_registers_inv.
 (* The command list is the circuit's wire-labelled trace (its gates and measurements,
    in order, on the labels of the wires they act on) under an injective assignment of
    registers to labels; rotation parameters are 2 * phase modulo 4. *)
-Theorem to_tk_refines_trace : forall c s,
-  to_tk_state c = Ok s -> layers_allowed (c_layers c) = true ->
+Theorem to_tk_refines_trace : forall fx c s,
+  to_tk_state fx c = Ok s -> layers_allowed fx (c_layers c) = true ->
   exists q rho,
     qtrace (prep c) = Some q /\
     (forall a b, a < q_next q -> b < q_next q -> rho a = rho b -> a = b) /\
@@ -31,8 +34,8 @@ Theorem to_tk_refines_trace : forall c s,
 Proof. exact to_tk_refines_trace_circuit. Qed.
 Print Assumptions to_tk_refines_trace.
 
-Theorem to_tk_refines_trace_layers : forall dom ls s',
-  to_tk_layers dom st0 ls = Ok s' -> layers_allowed ls = true ->
+Theorem to_tk_refines_trace_layers : forall fx dom ls s',
+  to_tk_layers fx dom st0 ls = Ok s' -> layers_allowed fx ls = true ->
   exists q rho,
     qtrace_layers dom (QS [] 0 []) ls = Some q /\
     (forall a b, a < q_next q -> b < q_next q -> rho a = rho b -> a = b) /\
@@ -62,51 +65,51 @@ Proof. exact prepare_bits_tracks. Qed.
 Print Assumptions post_selection_tracks_renaming.
 
 (* ... but not under the swap of two other bits through Bit('tmp', 0)  (F32) *)
-Theorem post_selection_swap_refuted : ~ swap_keeps_post_selection_stmt.
+Theorem post_selection_swap_refuted : ~ swap_keeps_post_selection_stmt pinned.
 Proof. exact swap_keeps_post_selection_refuted_F32. Qed.
 Print Assumptions post_selection_swap_refuted.
 
 (* the routing of output bits through post-selection and post-processing: refuted *)
-Theorem to_tk_routing_refuted_F10 : ~ to_tk_routing_stmt.
+Theorem to_tk_routing_refuted_F10 : ~ to_tk_routing_stmt pinned.
 Proof. exact TkLemmas.to_tk_routing_refuted_F10. Qed.
 Print Assumptions to_tk_routing_refuted_F10.
-Theorem to_tk_routing_refuted_F30 : ~ to_tk_routing_stmt.
+Theorem to_tk_routing_refuted_F30 : ~ to_tk_routing_stmt pinned.
 Proof. exact TkLemmas.to_tk_routing_refuted_F30. Qed.
 Print Assumptions to_tk_routing_refuted_F30.
-Theorem to_tk_routing_refuted_F31 : ~ to_tk_routing_stmt.
+Theorem to_tk_routing_refuted_F31 : ~ to_tk_routing_stmt pinned.
 Proof. exact TkLemmas.to_tk_routing_refuted_F31. Qed.
 Print Assumptions to_tk_routing_refuted_F31.
-Theorem to_tk_routing_refuted_F32 : ~ to_tk_routing_stmt.
+Theorem to_tk_routing_refuted_F32 : ~ to_tk_routing_stmt pinned.
 Proof. exact TkLemmas.to_tk_routing_refuted_F32. Qed.
 Print Assumptions to_tk_routing_refuted_F32.
 
 (* trace refinement needs the restriction on destructive overriding measurements (F34) *)
-Theorem to_tk_refines_trace_refuted_F34 : ~ to_tk_refines_trace_unrestricted_stmt.
+Theorem to_tk_refines_trace_refuted_F34 : ~ to_tk_refines_trace_unrestricted_stmt pinned.
 Proof. exact TkLemmas.to_tk_refines_trace_refuted_F34. Qed.
 Print Assumptions to_tk_refines_trace_refuted_F34.
 
 (* importing what was exported (F18), and importing gates on distant qubits (F33) *)
-Theorem from_to_roundtrip_refuted_F18 : ~ from_to_roundtrip_stmt.
+Theorem from_to_roundtrip_refuted_F18 : ~ from_to_roundtrip_stmt pinned.
 Proof. exact TkLemmas.from_to_roundtrip_refuted_F18. Qed.
 Print Assumptions from_to_roundtrip_refuted_F18.
-Theorem from_tk_refines_trace_refuted_F33 : ~ from_tk_refines_trace_stmt.
+Theorem from_tk_refines_trace_refuted_F33 : ~ from_tk_refines_trace_stmt pinned.
 Proof. exact TkLemmas.from_tk_refines_trace_refuted_F33. Qed.
 Print Assumptions from_tk_refines_trace_refuted_F33.
 
 (* from_tk: arity and well-typedness.  For every tket circuit whose commands address
    existing qubits and whose post-processing is well-typed, whatever from_tk returns is a
    well-typed circuit without inputs, with the outputs of the post-processing (bits only). *)
-Theorem from_tk_well_typed : forall t sid c,
+Theorem from_tk_well_typed : forall fx t sid c,
   cmds_in_range (t_nq t) (t_cmds t) = true -> pp_ok (t_pp t) = true ->
-  from_tk t sid = Ok c ->
+  from_tk fx t sid = Ok c ->
   circuit_ok c = true /\ c_dom c = [] /\
   cod_of [] (c_layers c) = cod_of (rep (pp_dom (t_pp t)) WBit) (pp_layers (t_pp t)).
 Proof. exact from_tk_well_typed_lemma. Qed.
 Print Assumptions from_tk_well_typed.
 
 (* the command loop alone (swaps, gate, swaps undone), for EVERY command list it accepts *)
-Theorem from_tk_loop_well_typed : forall nq nb psel cs f,
-  from_tk_cmds nq nb psel (rep nq WQubit ++ rep nb WBit)
+Theorem from_tk_loop_well_typed : forall fx nq nb psel cs f,
+  from_tk_cmds fx nq nb psel (rep nq WQubit ++ rep nb WBit)
                (FTK (ket_layers nq 0 ++ bits_layers nb nq) []) cs = Ok f ->
   layers_ok [] (f_layers f) = true /\
   cod_of [] (f_layers f) = rep nq WQubit ++ rep nb WBit.
@@ -115,6 +118,49 @@ Print Assumptions from_tk_loop_well_typed.
 
 (* the `bits` register list, unlike `qubits`, is not kept in wire order (F10) *)
 Theorem to_tk_bits_order_refuted_F10 :
-  exists s, to_tk_state f10_witness = Ok s /\ s_bits s = [1; 0].
+  exists s, to_tk_state pinned f10_witness = Ok s /\ s_bits s = [1; 0].
 Proof. exact TkLemmas.to_tk_bits_order_refuted_F10. Qed.
 Print Assumptions to_tk_bits_order_refuted_F10.
+
+(* ---- the repaired behaviour (switches on) ---- *)
+
+(* with the F34 repair: no exclusion of destructive overriding measurements *)
+Theorem to_tk_registers_inv_repaired : forall fx dom ls1 ls2 s',
+  fx34 fx = true -> to_tk_layers fx dom st0 (ls1 ++ ls2) = Ok s' ->
+  exists s1 q1 rho1,
+    to_tk_layers fx dom st0 ls1 = Ok s1 /\
+    qtrace_layers dom (QS [] 0 []) ls1 = Some q1 /\
+    registers_ok s1 q1 rho1.
+Proof. exact to_tk_registers_inv_repaired_lemma. Qed.
+Print Assumptions to_tk_registers_inv_repaired.
+
+Theorem to_tk_refines_trace_repaired : forall fx c s,
+  fx34 fx = true -> to_tk_state fx c = Ok s ->
+  exists q rho,
+    qtrace (prep c) = Some q /\
+    (forall a b, a < q_next q -> b < q_next q -> rho a = rho b -> a = b) /\
+    map qpart (t_cmds (s_tk s)) = map (relabel rho) (q_events q).
+Proof. exact to_tk_refines_trace_repaired_lemma. Qed.
+Print Assumptions to_tk_refines_trace_repaired.
+
+(* with the F32 repair: swapping two bits leaves the post-selection of the others alone *)
+Theorem post_selection_swap_repaired : forall fx, fx32 fx = true -> swap_keeps_post_selection_stmt fx.
+Proof. exact swap_keeps_post_selection_repaired. Qed.
+Print Assumptions post_selection_swap_repaired.
+
+(* the former counter-examples F10, F31, F32, F34, F18, F33 satisfy the statements they
+   refuted once the switches are on; the F30 witness (no repair) still fails *)
+Theorem repaired_witnesses_ok :
+  (exists t, to_tk repaired f10_witness = Ok t /\ routing_ok f10_witness t = true) /\
+  (exists t, to_tk repaired f31_witness = Ok t /\ routing_ok f31_witness t = true) /\
+  (exists t, to_tk repaired f32_witness = Ok t /\ routing_ok f32_witness t = true /\
+             t_psel t = [(0, false)]) /\
+  (exists s, to_tk_state repaired f34_witness = Ok s /\ s_qubits s = [] /\
+             map qpart (t_cmds (s_tk s)) = [(4%Z, None, [2]); (0%Z, None, [1]); (0%Z, None, [2])] /\
+             routing_ok f34_witness (s_tk s) = true) /\
+  (exists t c2, to_tk repaired f18_witness = Ok t /\ from_tk repaired t (scalar_flag t) = Ok c2 /\
+                circuit_ok c2 = true) /\
+  (exists c, from_tk repaired f33_witness None = Ok c /\ from_tk_trace_ok f33_witness c = true) /\
+  (exists t, to_tk repaired f30_witness = Ok t /\ routing_ok f30_witness t = false).
+Proof. exact repaired_witnesses. Qed.
+Print Assumptions repaired_witnesses_ok.
